@@ -1147,7 +1147,7 @@ def build_unit(repo, unit, spec, prelude_texts, probe=False):
             "name": name, "fn": it.get("fn"), "type_item": bool(it.get("block")), "file": it["file"],
             "line_start": line_of(s, toks[item.start].pos), "line_end": line_of(s, toks[item.body_close].pos),
             "sha256": sha(original), "rewrites": counts, "diff": diff,
-            "has_contract": name in spec.fn,
+            "has_contract": name in spec.fn, "emitted": text(sp),
         })
     out += "\n} // verus!\nfn main() {}\n"
     ex.text = out
